@@ -136,7 +136,7 @@ def gen_commented(ctx, n):
         b = gen.gen_block(rng, t, depth=rng.choice([0, 1, 2, 2]), max_items=7)
         if rng.random() < .5 and "metadata" in gen.raw(b.type)["properties"] and not any(it[1] == "metadata" for it in b.items if len(it) > 1):
             b.items.insert(rng.randrange(len(b.items) + 1), ("kv", "metadata", [(f"k{j}", gen.rstring(rng)) for j in range(rng.randint(1, 3))]))
-        lines = gen.render(b).split("\n")
+        lines = (gen.symbolset_text(rng) if i % 13 == 7 else gen.render(b)).split("\n")   # every 13th document is a symbol file (SYMBOLSET root)
         firsts = [ln.split()[0].upper() if ln.split() else "" for ln in lines]
         count = collections.Counter(firsts)
         res, claims, k = [], [], 0
